@@ -291,6 +291,42 @@ def joined_constants(ctx):
     ctx.count("kernels whose grid operand is a branch between constants of one geometry (zone / filled copy / completely filled copy)", n)
 
 
+def arch_spec_device_forms(ctx):
+    """kernels of documented vocabulary whose device calls are evaluated while the kernel is DEFINED (@move(arch_spec=S), every argument a
+    constant): keyword arguments in another order than the parameters inside a parallel block (operands of different types), and a tweezer
+    kernel reading constants of the spec whose value is 0 / 0.0 - accepted, like the same kernels without a spec"""
+    from gen import tweezer_prog
+    S = tweezer_prog.harness_spec()
+    tw = ("@tweezer\ndef kg(zone: grid.Grid[Any, Any], dx: float):\n    action.set_loc(zone)\n    action.move(grid.shift(zone, dx, 0.0))\n\n"
+          "@tweezer\ndef kzero(a: float):\n    g = grid.from_positions([a + spec.get_float_constant(constant_id=\"origin\")], [1.0 * spec.get_int_constant(constant_id=\"zero\")])\n"
+          "    action.set_loc(g)\n    action.move(grid.shift(g, spec.get_float_constant(constant_id=\"origin\"), 1.0))\n")
+    try:
+        ks = kernels.define(tw)
+    except Exception as e:
+        ctx.obligation("the tweezer kernels of the definition-time device forms are accepted", False, f"{type(e).__name__}: {e}"[:200])
+        return
+    bodies = {
+        "keywords out of order in a parallel block": "    dev = schedule.device_fn(kg, [0, 1, 2], [0, 1])\n    with schedule.parallel():\n        dev(dx=2.0, zone=CONST_GRID)\n        dev(CONST_GRID, dx=1.0)\n",
+        "keywords out of order in an auto block": "    dev = schedule.device_fn(kg, [0, 1, 2], [0, 1])\n    with schedule.auto():\n        dev(dx=2.0, zone=CONST_GRID)\n",
+        "keywords out of order outside a block": "    dev = schedule.device_fn(kg, [0, 1, 2], [0, 1])\n    dev(dx=2.0, zone=CONST_GRID)\n    schedule.reverse(dev)(dx=0.5, zone=CONST_GRID)\n",
+        "a tweezer kernel reading zero-valued constants": "    f = schedule.device_fn(kzero, [0], [0])\n    f(1.0)\n    with schedule.parallel():\n        f(2.0)\n        schedule.reverse(f)(a=3.0)\n",
+    }
+    n = 0
+    for name, body in bodies.items():
+        for dec in ("", "(arch_spec=S)", "(arch_spec=S, fold=False)", "(arch_spec=S, aggressive=True)"):
+            src = f"@move{dec}\ndef main():\n" + body
+            got, err = try_define(src, S=S, kg=ks["kg"], kzero=ks["kzero"])
+            ctx.evaluations += 1
+            n += 1
+            if got != "accepted":
+                ctx.fail({"kind": "move", "got": "rejected", "documented": "accept", "form": "device calls evaluated at definition: " + name, "decorator": dec},
+                         {"src": src, "expected": "accepted", "definition_time_device_forms": True},
+                         f"@move{dec} kernel ({name}) was rejected ({err}); its vocabulary is the documented one")
+            else:
+                ctx.nt(("definition-time-device-forms", name, dec))
+    ctx.count("kernels whose device calls are evaluated at definition (keywords out of order in blocks, zero-valued constants) x 4 decorators", n)
+
+
 def option_specs():
     """specs for the decorators' arch_spec= option; the literal name "traps" (what one_statement_kernels writes for a string attribute) is
     known under every lookup kind / only as a special grid and an int constant / only as a static trap and a float constant / not at all"""
@@ -520,6 +556,7 @@ def run(ctx):
     arch_spec_option(ctx, ws, wcat)
     definition_histories(ctx)
     joined_constants(ctx)
+    arch_spec_device_forms(ctx)
     # ---- the tracer's guard ----
     S = tweezer_prog.harness_spec()
     from bloqade.shuttle.codegen.taskgen import TraceInterpreter
@@ -570,6 +607,18 @@ def run(ctx):
 
 
 def replay(data):
+    if data["input"].get("definition_time_device_forms"):
+        class C:
+            def __init__(s): s.fails, s.evaluations = [], 0
+            def fail(s, sig, rep, what):
+                if rep["src"] == data["input"]["src"]: s.fails.append(what)
+            def nt(s, *a): pass
+            def count(s, *a): pass
+            def obligation(s, n, ok, log=""):
+                if not ok: s.fails.append(n)
+        c = C()
+        arch_spec_device_forms(c)
+        return bool(c.fails), (c.fails or ["accepted"])[0][:200]
     if "definition_history" in data["input"]:
         class C:
             def __init__(s): s.fails, s.evaluations = [], 0
